@@ -46,10 +46,12 @@ CHECKS = {
          "Every pipeline path either returns the complete 8-tuple or raises 'no solution' exactly when pruning is on and the exact value "
          "of the initial state is 0; any other exception on any path is a violation; value iteration must stop within a sweep budget "
          "on all template instances for all rewards.", TB + "; termination is bounded (templates, sweep budget), not proved in general"),
- "C07": ("DESIGN.md 4/C07", "bounded-exhaustive case split over graphs (holes) with the real search executed per case; concrete depth sentinels",
-         "Real reverse_dfs / reverse_transition_list on EVERY graph with n<=3 (thorough n<=4) states and bounded out-degree, every final "
-         "list with order and repetition, against an independent fixed point; nothing symbolic survives inside this function (its "
-         "control flow is the graph), so the verdict is exhaustive enumeration within the bound; deep/wide graphs are concrete sentinels.",
+ "C07": ("DESIGN.md 4/C07", "symbolic successor / final indices case-split by z3 through the code's own dictionary lookups (n<=3); bounded-exhaustive "
+         "enumeration of all graphs n<=3 (thorough n<=4); concrete depth / width / density sentinels",
+         "Real reverse_dfs / reverse_transition_list with every successor index and final state a solver variable in 0..n-1 (n<=2, thorough "
+         "n<=3): the search's dictionary lookups force the case split and z3 proposes every feasible value; additionally EVERY graph with "
+         "n<=3 (thorough n<=4) states, bounded out-degree and every final list is enumerated against an independent fixed point (the "
+         "search's control flow is the graph, so beyond the case split nothing symbolic survives); deep / wide / dense graphs are concrete sentinels.",
          TB + "; sizes beyond the bound covered by sentinels only"),
  "C08": ("DESIGN.md 4/C08", SE + "; havoc-range per-tile lemmas for boards of unbounded size",
          "Each of the nine transition builders run once for an ARBITRARY tile of a board of ANY length/width (havoc range): emitted "
